@@ -6,6 +6,7 @@ require (
 	github.com/anacrolix/dht/v2 v2.19.2-0.20221121215055-066ad8494444
 	github.com/anacrolix/log v0.15.2
 	github.com/anacrolix/torrent v1.48.1-0.20230103142631-c20f73d53e9f
+	golang.org/x/time v0.0.0-20220609170525-579cf78fd858
 	pgregory.net/rapid v1.3.0
 )
 
@@ -25,7 +26,6 @@ require (
 	golang.org/x/exp v0.0.0-20221217163422-3c43f8badb15 // indirect
 	golang.org/x/sync v0.0.0-20220722155255-886fb9371eb4 // indirect
 	golang.org/x/sys v0.6.0 // indirect
-	golang.org/x/time v0.0.0-20220609170525-579cf78fd858 // indirect
 )
 
 replace github.com/anacrolix/dht/v2 => /repo
